@@ -17,6 +17,8 @@ def run(chk):
     tree_rules.setup_guards(chk, "C10")
     tree_rules.backtest_init_rules(chk, "C10")
     price_guard_in_allocate(chk)
+    from .c05 import loop_step
+    loop_step(chk)  # a wrong step makes the search diverge and raise on well-formed input
     core_rules.division_guards(chk, "C10")
     core_rules.sizing_loop_cap(chk, "C10")
     core_rules.writable_history_views(chk, "C10")
